@@ -1,7 +1,7 @@
 from __future__ import absolute_import
 from pony.py23compat import buffer, int_types
 
-import os, os.path, sys, re, json, datetime, time
+import os, os.path, sys, re, json, datetime, time, weakref
 import sqlite3 as sqlite
 from decimal import Decimal
 from random import random
@@ -318,6 +318,17 @@ def keep_exception(func):
     return new_func
 
 
+providers = weakref.WeakSet()
+
+def _after_fork_in_child():
+    # a lock held by some thread of the parent process can never be released in the forked child
+    for provider in list(providers):
+        provider.pre_transaction_lock = Lock()
+        provider.transaction_lock = Lock()
+
+if hasattr(os, 'register_at_fork'):
+    os.register_at_fork(after_in_child=_after_fork_in_child)
+
 class SQLiteProvider(DBAPIProvider):
     dialect = 'SQLite'
     local_exceptions = local_exceptions
@@ -357,6 +368,7 @@ class SQLiteProvider(DBAPIProvider):
         DBAPIProvider.__init__(provider, database, is_shared_memory_db, filename, **kwargs)
         provider.pre_transaction_lock = Lock()
         provider.transaction_lock = Lock()
+        providers.add(provider)
 
     @wrap_dbapi_exceptions
     def inspect_connection(provider, conn):
